@@ -14,16 +14,17 @@ Theorem C10_history_file_indep_partial :
   forall (U : universe) (bases : N -> list N) (cname : N -> str) (fuel : nat) (rank : N -> nat), forest bases rank fuel ->
   forall (sites : list site) (stores : list store) (rfacts : bool),
     forallb site_ok sites = true -> forallb (store_ok rfacts) stores = true ->
-  forall (render : ambient -> N -> option str -> tyobj -> prog), (forall a1 a2 cf t o, render a1 cf t o = render a2 cf t o) ->
+  forall (reads : list wread), forallb read_ok reads = true ->
+  forall (render : ambient -> list (list N) -> N -> option str -> tyobj -> prog), (forall a1 a2 I cf t o, render a1 I cf t o = render a2 I cf t o) ->
   forall (cfun : ckey -> str) (m1 m2 : option nat) (h1 h2 : list op) (e1 e2 : entry),
-    In e1 (log U bases cname fuel sites stores rfacts render cfun m1 true true h1) ->
-    In e2 (log U bases cname fuel sites stores rfacts render cfun m2 true true h2) ->
+    In e1 (log U bases cname fuel sites stores rfacts reads render cfun m1 true true h1) ->
+    In e2 (log U bases cname fuel sites stores rfacts reads render cfun m2 true true h2) ->
     e_cfg e1 = e_cfg e2 -> e_tset e1 = e_tset e2 -> e_pps0 e1 = e_pps0 e2 -> e_key e1 = e_key e2 ->
     e_clean e1 = true -> e_clean e2 = true ->
     e_tmpl e1 = e_tmpl e2 /\ e_text e1 = e_text e2.
 Proof.
-  intros U bases cname fuel rank (F1 & F2 & F3) sites stores rfacts Hs Hst render Hr cfun m1 m2 h1 h2 e1 e2 H1 H2 Hc Ht Hp Hk C1 C2.
-  exact (file_indep_lemma U bases cname fuel rank F1 F2 F3 sites stores rfacts Hs Hst render Hr cfun true m1 m2 h1 h2 e1 e2
+  intros U bases cname fuel rank (F1 & F2 & F3) sites stores rfacts Hs Hst reads Hrd render Hr cfun m1 m2 h1 h2 e1 e2 H1 H2 Hc Ht Hp Hk C1 C2.
+  exact (file_indep_lemma U bases cname fuel rank F1 F2 F3 sites stores rfacts Hs Hst reads Hrd render Hr cfun true m1 m2 h1 h2 e1 e2
            H1 H2 Hc Ht Hp Hk (or_intror (conj C1 C2))).
 Qed.
 Print Assumptions C10_history_file_indep_partial.
@@ -31,10 +32,10 @@ Print Assumptions C10_history_file_indep_partial.
 (* the unrestricted statement was FALSE: limit 1, file of A = "a\n\n", file of B = "\nb"; whole namespace: B = "b";
    subset {B}: B = "\nb" *)
 Theorem C10_history_lel_leak_refuted :
-  exists (U : universe) (render : ambient -> N -> option str -> tyobj -> prog) (cfun : ckey -> str) (h1 h2 : list op) (e1 e2 : entry),
-    (forall a1 a2 cf t o, render a1 cf t o = render a2 cf t o) /\
-    In e1 (log U (ct_bases w_ct) (ct_name w_ct) 4 [] [] true render cfun None true true h1) /\
-    In e2 (log U (ct_bases w_ct) (ct_name w_ct) 4 [] [] true render cfun None true true h2) /\
+  exists (U : universe) (render : ambient -> list (list N) -> N -> option str -> tyobj -> prog) (cfun : ckey -> str) (h1 h2 : list op) (e1 e2 : entry),
+    (forall a1 a2 I cf t o, render a1 I cf t o = render a2 I cf t o) /\
+    In e1 (log U (ct_bases w_ct) (ct_name w_ct) 4 [] [] true [] render cfun None true true h1) /\
+    In e2 (log U (ct_bases w_ct) (ct_name w_ct) 4 [] [] true [] render cfun None true true h2) /\
     e_cfg e1 = e_cfg e2 /\ e_tset e1 = e_tset e2 /\ e_pps0 e1 = e_pps0 e2 /\ e_key e1 = e_key e2 /\ e_text e1 <> e_text e2.
 Proof. exact lel_leak_refuted_lemma. Qed.
 Print Assumptions C10_history_lel_leak_refuted.
